@@ -41,7 +41,14 @@ pub async fn run_conc<TC: HasRef>(b: &Value, tr: &mut Tracer) {
     let mut handles: HashMap<u32, tokio::task::JoinHandle<Value>> = HashMap::new();
     for p in procs.iter() {
         let pid = p["pid"].as_u64().unwrap() as u32;
-        let dir = ctx.dir.clone();
+        // a reader marked "remote" is served by a second instance: its own cached manager over the same
+        // database (cold cache except for the epoch record it read when it was opened)
+        let dir = if p["remote"].as_bool().unwrap_or(false) {
+            let m = akd::storage::manager::StorageManager::new(ctx.db.clone(), None, None, None);
+            akd::directory::Directory::<TC, _, _>::new(m, ctx.vrf.clone(), akd::append_only_zks::AzksParallelismConfig::disabled()).await.unwrap()
+        } else {
+            ctx.dir.clone()
+        };
         let pk = ctx.pk.clone();
         let spec = p.clone();
         let (label, real_batch): (Option<akd::AkdLabel>, Vec<(akd::AkdLabel, akd::AkdValue)>) = match spec["kind"].as_str().unwrap() {
